@@ -223,6 +223,12 @@ def subchecks(tier):
                         classes=classes, n={"quick": 3600, "thorough": 20000},
                         rule="NodeClassMatrix where customers that changed class after service are blocked, interrupted while blocked by a pre-emptive shift end, "
                              "served again, pre-empted and change class while waiting; three classes, two of which may share a priority"),
+        system_subcheck("slot_feed", common.slot_feed_profile("C17", downstream="int", more_weights={"tracker": 1.0, "capacity": 1.0, "reneging": 0.1},
+                                                              required=("slotted", "slot_capacitated", "slot_preempt", "tracker", "capacity"), caps=(0, 0, 1)),
+                        lambda spec: [TrackerTruth(spec)], lambda a, spec, res: a.get("rec_interrupted_service", 0) >= 1 and a.get("blocked_seen", 0) >= 1,
+                        classes=classes, n={"quick": 2400, "thorough": 15000},
+                        rule="capacitated pre-emptive slotted node whose customers are blocked by a small downstream node: state changes that happen at slot events "
+                             "(a blocked customer interrupted / resumed in place) must be in the tracker and in its history at their time"),
         system_subcheck("reserved_story", None, lambda spec: [TrackerTruth(spec)],
                         lambda a, spec, res: a.get("ev_class_change", 0) >= 1 and a.get("rec_interrupted_service", 0) >= 2 and a.get("blocked_seen", 0) >= 1,
                         classes=classes, strategy=reserved_story(), n={"quick": 1600, "thorough": 8000},
